@@ -26,6 +26,7 @@ Symbolic instances keep bond dimension 2 on the bonds named by a `pattern` (1 el
 the certificates would otherwise be out of reach; the numeric cross-run of the same harness
 always uses bond dimension 2 everywhere (complex entries where the symbolic run must be real).
 """
+import functools
 import itertools
 import warnings
 
@@ -121,6 +122,53 @@ def pair_bonds_ok(tn, chi):
         if sz > chi:
             return False
     return True
+
+
+def certified(fn):
+    """exactness harnesses: run with the opt-in range consequences of the QR / SVD stubs (for a tall
+    isometric factor Q also Q Q^dag A = A is recorded as a derived hypothesis; implied by the contract)"""
+    @functools.wraps(fn)
+    def run(mk, **kw):
+        old = dict(stubs.OPTIONS)
+        stubs.OPTIONS["range_consequences"] = True
+        try:
+            return fn(mk, **kw)
+        finally:
+            stubs.OPTIONS.update(old)
+    return run
+
+
+class shapes_only:
+    """context for goals that only concern shapes (bond caps of truncating runs): the LAPACK stubs
+    return fresh factors of the right shapes and add NO contract (fewer assumptions)"""
+
+    def __enter__(self):
+        self.old = dict(stubs.OPTIONS)
+        stubs.OPTIONS["contracts"] = False
+        stubs.OPTIONS["eigh_spectrum"] = "pos"      # no sign forks on clipped spectra (values are irrelevant here)
+
+    def __exit__(self, *a):
+        stubs.OPTIONS.update(self.old)
+
+
+def cap_goal(mk, label, tn, chi):
+    """goal: no two tensors of `tn` share more than chi (a multi-bond counts as one bond)"""
+    big = _largest_pair(tn)
+    mk.same(label + f": largest bond between two tensors <= {chi}", max(big, chi), chi)
+
+
+def _largest_pair(tn):
+    best = 1
+    ts = list(tn.tensor_map.values())
+    for a in range(len(ts)):
+        ia = set(ts[a].inds)
+        for b in range(a + 1, len(ts)):
+            sz = 1
+            for ix in ts[b].inds:
+                if ix in ia:
+                    sz *= ts[b].ind_size(ix)
+            best = max(best, sz)
+    return best
 
 
 class spectrum:
@@ -261,34 +309,764 @@ def _shape_for(direction, small=True):
 def _bx_params():
     out = []
     for d in _DIRS:
-        # single step from each side; all bonds 2
-        for opt in ("mps", "mps-nocanon", "mps-rev", "mps-early", "mps-both", "mps-left", "full-bond", "direct", "zipup"):
+        # one step from each side, every bond 2, cap == exact boundary bond (4)
+        for opt in ("mps", "mps-nocanon", "mps-rev", "mps-early", "mps-left", "full-bond", "direct", "zipup"):
             out.append({"shape": _shape_for(d), "seq": (d,), "opt": opt, "pattern": "all", "cap": 4, "_tiers": _Q})
-        for opt in ("mps", "mps-nocanon", "mps-rev", "full-bond"):
-            out.append({"shape": (3, 3), "seq": (d,), "opt": opt, "pattern": "all", "cap": 4,
-                        "_tiers": _Q if opt == "mps" else _T})
+        for opt in ("mps", "mps-nocanon", "mps-rev", "mps-left", "full-bond", "direct"):
+            out.append({"shape": (3, 3), "seq": (d,), "opt": opt, "pattern": "all", "cap": 4, "_tiers": _T})
+        # a cap above the exact size and no cap at all
+        out.append({"shape": _shape_for(d), "seq": (d,), "opt": "mps", "pattern": "all", "cap": 7, "_tiers": _T})
+        out.append({"shape": _shape_for(d), "seq": (d,), "opt": "mps", "pattern": "all", "cap": None, "_tiers": _Q})
     return out
 
 
-@obligation(PROP, params=_bx_params(), rounds=2, wall_s=250, timeout_s=280, max_rows=60000, solver_timeout_ms=120000)
-def boundary_exact(mk, shape, seq, opt, pattern, cap, extra=None):
-    """TensorNetwork2D.contract_boundary on a flat lattice with cap >= exact boundary bond and
-    cutoff 0: the returned value is the exact contraction value"""
-    mk.encodes(c2.TensorNetwork2D.contract_boundary, c2.TensorNetwork2D._contract_interleaved_boundary_sequence,
-               c2.TensorNetwork2D.contract_boundary_from, c2.TensorNetwork2D._contract_boundary_core,
-               c2.TensorNetwork2D._contract_boundary_full_bond, c2.TensorNetwork2D._contract_boundary_core_via_1d,
-               c2.TensorNetwork2D.canonize_plane, c2.TensorNetwork2D.compress_plane, c2.Rotator2D, c2.parse_boundary_sequence,
-               tc.TensorNetwork._compress_between_tids, tc.TensorNetwork.compress_between, tc.TensorNetwork.canonize_between,
-               tc.tensor_compress_bond, tc.tensor_canonize_bond)
-    Lx, Ly = shape
-    tn = lattice2d(mk, Lx, Ly, pattern, kind="real", numkind="cplx")
-    want = exact(tn)
-    if Lx * Ly <= 6:
-        mk.eq("reference cross-check: tensordot chain == explicit sum of products", want, ref.tn_dense(tn, ()))
+def _bx_goal(mk, tn, want, cap, seq, opt, extra=None):
     kw = dict(OPTS2D[opt])
     kw.update(extra or {})
     res = tn.contract_boundary(max_bond=cap, cutoff=0.0, sequence=seq, **kw)
     if kw.get("strip_exponent"):
         mk.same("strip_exponent returns (mantissa, exponent)", isinstance(res, tuple) and len(res) == 2, True)
-    mk.eq(f"contract_boundary(max_bond={cap}, cutoff=0.0, sequence={seq}, {opt}) == exact value", value(res), want)
+    mk.eq(f"contract_boundary(max_bond={cap}, cutoff=0.0, sequence={seq}, {opt}{', ' + str(extra) if extra else ''}) == exact value",
+          value(res), want)
     mk.eq("inplace=False leaves the network alone", exact(tn), want)
+
+
+_ENC_BOUNDARY = (c2.TensorNetwork2D.contract_boundary, c2.TensorNetwork2D._contract_interleaved_boundary_sequence,
+                 c2.TensorNetwork2D.contract_boundary_from, c2.TensorNetwork2D._contract_boundary_core,
+                 c2.TensorNetwork2D._contract_boundary_full_bond, c2.TensorNetwork2D._contract_boundary_core_via_1d,
+                 c2.TensorNetwork2D.canonize_plane, c2.TensorNetwork2D.compress_plane, c2.TensorNetwork2D.gen_pairs,
+                 c2.Rotator2D, c2.parse_boundary_sequence,
+                 tc.TensorNetwork._compress_between_tids, tc.TensorNetwork.compress_between, tc.TensorNetwork.canonize_between,
+                 tc.TensorNetwork._canonize_between_tids, tc.tensor_compress_bond, tc.tensor_canonize_bond,
+                 tc.tensor_make_single_bond, tc.TensorNetwork.contract_between, tc.TensorNetwork.insert_gauge,
+                 decomp.similarity_compress)
+
+_CERT = dict(rounds=2, wall_s=500, timeout_s=600, max_rows=60000, solver_timeout_ms=200000)
+
+
+@obligation(PROP, params=_bx_params(), **_CERT)
+@certified
+def boundary_exact(mk, shape, seq, opt, pattern, cap):
+    """TensorNetwork2D.contract_boundary on a flat lattice, one boundary step from each side, every
+    mode: cap >= exact boundary bond and cutoff 0 => the exact contraction value"""
+    mk.encodes(*_ENC_BOUNDARY)
+    Lx, Ly = shape
+    tn = lattice2d(mk, Lx, Ly, pattern, kind="real", numkind="cplx")
+    want = exact(tn)
+    if Lx * Ly <= 6:
+        mk.eq("reference cross-check: tensordot chain == explicit sum of products", want, ref.tn_dense(tn, ()))
+    _bx_goal(mk, tn, want, cap, seq, opt)
+
+
+def _bo_params():
+    """option cells that need sparse symbolic instances (square roots / sign forks / SVD)"""
+    out = []
+    for d in _DIRS:
+        pat = "col0" if d[0] == "x" else "row0"
+        for opt in ("mps-both", "mps-strip"):
+            out.append({"shape": _shape_for(d), "seq": (d,), "opt": opt, "pattern": pat, "cap": 4, "_tiers": _Q if d in ("xmin", "ymax") else _T})
+        for opt in ("mps-svd", "mps-eq", "mps-eq1", "full-bond-svd", "dm", "fit"):
+            out.append({"shape": _shape_for(d), "seq": (d,), "opt": opt, "pattern": "all", "cap": 4,
+                        "_tiers": _Q if (d in ("xmax", "ymin") and opt != "fit") else _T})
+    return out
+
+
+@obligation(PROP, params=_bo_params(), **_CERT)
+@certified
+def boundary_exact_options(mk, shape, seq, opt, pattern, cap):
+    """further option cells of contract_boundary (absorb='both', explicit SVD, equalize_norms True / 1.0,
+    strip_exponent, full-bond via SVD, density-matrix and fit 1D compressors)"""
+    mk.encodes(*_ENC_BOUNDARY, c1c.tensor_network_1d_compress, c1c.tensor_network_1d_compress_dm,
+               c1c.tensor_network_1d_compress_fit, tc.TensorNetwork.strip_exponent, tc.TensorNetwork.equalize_norms)
+    Lx, Ly = shape
+    tn = lattice2d(mk, Lx, Ly, pattern, kind="real", numkind="cplx")
+    want = exact(tn)
+    _bx_goal(mk, tn, want, cap, seq, opt)
+
+
+# sequences of several steps: the boundaries move inwards from several sides; symbolic instances
+# entangle every bond along one lattice direction ("rows": all horizontal bonds 2, "cols": all vertical)
+_SEQS = [
+    # (shape, sequence, extra driver options, cap, quick?)
+    ((4, 3), None, {}, 4, True),                                   # default: the two short sides alternate (xmin, xmax)
+    ((3, 4), None, {}, 4, True),                                   # default: (ymin, ymax)
+    ((4, 3), ("xmin", "xmax"), {}, 4, False),
+    ((4, 3), ("xmax", "xmin"), {}, 4, False),
+    ((3, 4), ("ymax", "ymin"), {}, 4, False),
+    ((4, 2), "bt", {}, 4, True),                                   # letters b / t / l / r
+    ((2, 4), "rl", {}, 4, True),
+    ((3, 3), ("xmin", "ymin"), {"max_unfinished": 0}, 4, True),
+    ((3, 3), ("ymax", "xmax"), {"max_unfinished": 0}, 4, True),
+    ((3, 3), ("xmin",), {"max_separation": 0}, 8, True),           # one side all the way: boundary bond 2**3
+    ((3, 3), ("xmax",), {"max_separation": 0}, 8, False),
+    ((3, 3), ("ymin",), {"max_separation": 0}, 8, False),
+    ((3, 3), ("ymax",), {"max_separation": 0}, 8, True),
+    ((4, 4), ("xmin", "ymin", "xmax", "ymax"), {"max_unfinished": 0}, 4, False),
+    ((4, 4), "btlr", {"max_separation": 0, "max_unfinished": 0}, 8, False),
+    ((4, 4), ("ymax", "xmax", "ymin", "xmin"), {"max_unfinished": 0}, 4, False),
+    ((4, 3), ("xmin",), {"xmin": 1}, 4, False),                    # explicit initial boundary rows
+    ((4, 3), ("xmax",), {"xmax": 2}, 4, False),
+    ((3, 4), ("ymin", "ymax"), {"ymin": 1}, 4, False),
+]
+
+
+def _bs_params():
+    out = []
+    for shape, seq, extra, cap, quick in _SEQS:
+        for pat in ("rows", "cols"):
+            for opt in ("mps", "full-bond", "direct"):
+                q = quick and opt == "mps"
+                if opt != "mps" and shape == (4, 4):
+                    continue
+                out.append({"shape": shape, "seq": seq, "extra": extra, "opt": opt, "pattern": pat, "cap": cap, "_tiers": _Q if q else _T})
+    return out
+
+
+@obligation(PROP, params=_bs_params(), **_CERT)
+@certified
+def boundary_exact_sequences(mk, shape, seq, extra, opt, pattern, cap):
+    """contract_boundary with several steps from one or several sides (explicit sequences, the
+    default sequence, letter aliases, max_separation / max_unfinished, explicit initial boundaries)"""
+    mk.encodes(*_ENC_BOUNDARY)
+    Lx, Ly = shape
+    tn = lattice2d(mk, Lx, Ly, pattern, kind="real", numkind="cplx")
+    want = exact(tn)
+    _bx_goal(mk, tn, want, cap, seq, opt, extra)
+
+
+# ---------------------------------------------------------------------- direction wrappers with ranges
+
+def _along(direction):
+    """symbolic bond pattern that entangles the bonds along the boundary line of `direction`"""
+    return "rows" if direction[0] == "x" else "cols"
+
+
+def _bf_cells():
+    """(shape in the frame of the direction (depth, width), main range, cross range)"""
+    return [
+        ("near", (3, 3), "edge", None, True),        # the two lines next to the side
+        ("full", (3, 3), "full", None, True),        # all the way: two steps
+        ("part-lo", (3, 3), "edge", (0, 1), True),   # only part of the line
+        ("part-hi", (3, 3), "edge", (1, 2), False),
+        ("part-rev", (3, 3), "edge-rev", (2, 1), False),   # ranges given in descending order
+        ("inner", (4, 3), "inner", None, False),     # two interior lines
+        ("single", (3, 3), "edge", (1, 1), False),   # a single column of the line
+    ]
+
+
+def _bf_params():
+    out = []
+    for d in _DIRS:
+        for name, shape, main, cross, quick in _bf_cells():
+            for opt in ("mps", "mps-nocanon", "mps-rev", "full-bond"):
+                if opt == "full-bond" and name in ("single",):
+                    continue
+                q = quick and opt == "mps"
+                out.append({"side": d, "cell": name, "opt": opt, "pattern": "along", "_tiers": _Q if q else _T})
+            out.append({"side": d, "cell": name, "opt": "mps", "pattern": "all", "_tiers": _T})
+    return out
+
+
+def _resolve_cell(side, cell):
+    name, shape, main, cross, quick = next(c for c in _bf_cells() if c[0] == cell)
+    depth, width = shape
+    lo_side = side.endswith("min")
+    if main == "edge":
+        rng = (0, 1) if lo_side else (depth - 2, depth - 1)
+    elif main == "edge-rev":
+        rng = (1, 0) if lo_side else (depth - 1, depth - 2)
+    elif main == "full":
+        rng = (0, depth - 1)
+    else:
+        rng = (1, 2)
+    if side[0] == "x":
+        return (depth, width), rng, cross
+    return (width, depth), rng, cross
+
+
+@obligation(PROP, params=_bf_params(), **_CERT)
+@certified
+def boundary_from_ranges(mk, side, cell, opt, pattern):
+    """contract_boundary_from_xmin / _xmax / _ymin / _ymax with explicit (partial, interior, descending)
+    ranges: the returned network still denotes the exact value and exactly the requested sites are merged"""
+    mk.encodes(c2.TensorNetwork2D.contract_boundary_from_xmin, c2.TensorNetwork2D.contract_boundary_from_xmax,
+               c2.TensorNetwork2D.contract_boundary_from_ymin, c2.TensorNetwork2D.contract_boundary_from_ymax, *_ENC_BOUNDARY)
+    (Lx, Ly), main, cross = _resolve_cell(side, cell)
+    pat = _along(side) if pattern == "along" else pattern
+    tn = lattice2d(mk, Lx, Ly, pat, kind="real", numkind="cplx")
+    want = exact(tn)
+    kw = {k: v for k, v in OPTS2D[opt].items() if k != "mode"}
+    mode = OPTS2D[opt]["mode"]
+    fn = getattr(tn, f"contract_boundary_from_{side}")
+    cap = 2 ** (abs(main[1] - main[0]) + 1)
+    if side[0] == "x":
+        res = fn(xrange=main, yrange=cross, max_bond=cap, cutoff=0.0, mode=mode, **kw)
+    else:
+        res = fn(yrange=main, xrange=cross, max_bond=cap, cutoff=0.0, mode=mode, **kw)
+    mk.same("a new network is returned", isinstance(res, qtn.TensorNetwork) and res is not tn, True)
+    mk.eq(f"contract_boundary_from_{side}({main}, {cross}, max_bond={cap}, cutoff=0.0, {opt}): value of the returned network == exact value",
+          exact(res), want)
+    mk.eq("inplace=False leaves the network alone", exact(tn), want)
+    mk.same("the input keeps one tensor per site", tn.num_tensors, Lx * Ly)
+    # structure: exactly the sites in (main x cross) are merged along the sweep direction
+    lo, hi = sorted(main)
+    clo, chi_ = sorted(cross) if cross is not None else (0, (Ly if side[0] == "x" else Lx) - 1)
+    nmerged = (chi_ - clo + 1) * (hi - lo)
+    mk.same("number of tensors after the sweep", res.num_tensors, Lx * Ly - nmerged)
+    for c in range(clo, chi_ + 1):
+        tags = [res.site_tag(r, c) if side[0] == "x" else res.site_tag(c, r) for r in range(lo, hi + 1)]
+        tids = set()
+        for t in tags:
+            tids |= set(res.tag_map[t])
+        mk.same(f"sites {tags} are one tensor", len(tids), 1)
+
+
+# ---------------------------------------------------------------------- 2D boundary contraction: bond cap
+
+# modes whose symbolic run is out of reach (iteration to a numerical tolerance / sign decisions on
+# large expressions): their cap goals are decided in the numeric cross-run only
+_NUMERIC_ONLY_MODES = {"superorthogonal", "l2bp", "fit"}
+
+
+def _numeric_only(mk, why):
+    mk.note(f"numeric-only: {why}")
+    mk.same("numeric-only cell (symbolic run skipped)", True, True)
+
+
+def _cap_step_params():
+    out = []
+    for d in _DIRS:
+        for opt in ("mps", "mps-nocanon", "mps-rev", "mps-early", "mps-both", "mps-svd", "full-bond", "direct", "zipup", "dm",
+                    "projector1d", "projector2d", "local-early", "local-late", "superorthogonal", "l2bp", "fit"):
+            for chi in (2, 3):
+                q = (opt in ("mps", "full-bond", "projector2d", "mps-early", "zipup") and chi == 3) or (opt == "mps" and chi == 2)
+                out.append({"side": d, "opt": opt, "chi": chi, "_tiers": _Q if q else _T})
+    return out
+
+
+@obligation(PROP, params=_cap_step_params(), wall_s=500, timeout_s=600, max_paths=64)
+def boundary_cap_steps(mk, side, opt, chi):
+    """a truncating sweep (chi below the exact boundary bond, cutoff 0) done step by step with
+    contract_boundary_from_: after EVERY step no pair of tensors shares more than chi"""
+    mk.encodes(c2.TensorNetwork2D.contract_boundary_from, c2.TensorNetwork2D._contract_boundary_core,
+               c2.TensorNetwork2D._contract_boundary_full_bond, c2.TensorNetwork2D._contract_boundary_projector,
+               c2.TensorNetwork2D._contract_boundary_core_via_1d, c2.TensorNetwork2D.compress_plane,
+               tc.TensorNetwork._compress_between_tids, tc.tensor_compress_bond, decomp._trim_and_renorm_svd_result_numba,
+               tc.TensorNetwork.insert_compressor_between_regions, decomp.compute_oblique_projectors, decomp.similarity_compress)
+    mode = OPTS2D[opt]["mode"]
+    if mk.sym and mode in _NUMERIC_ONLY_MODES:
+        return _numeric_only(mk, f"mode {mode!r} iterates to a numerical tolerance")
+    heavy = mode in ("projector2d", "dm", "projector")       # symbolic run: Gram matrices of merged regions explode
+    depth, width = ((3, 3) if heavy else (4, 3)) if mk.sym else (4, 4)
+    Lx, Ly = (depth, width) if side[0] == "x" else (width, depth)
+    tn = lattice2d(mk, Lx, Ly, "all", kind="real", numkind="cplx")
+    kw = {k: v for k, v in OPTS2D[opt].items() if k != "mode"}
+    steps = range(depth - 1) if side.endswith("min") else range(depth - 1, 0, -1)
+    if heavy and mk.sym:
+        steps = steps[:1]          # symbolic run: the first step only (the next Gram matrices are out of reach)
+    with shapes_only():
+        for s in steps:
+            main = (s, s + 1) if side.endswith("min") else (s - 1, s)
+            rng = dict(xrange=main, yrange=(0, Ly - 1)) if side[0] == "x" else dict(yrange=main, xrange=(0, Lx - 1))
+            r = tn.contract_boundary_from_(from_which=side, max_bond=chi, cutoff=0.0, mode=mode, **rng, **kw)
+            mk.same("inplace variant returns the network itself", r is tn, True)
+            cap_goal(mk, f"after step {main} from {side} ({opt}, chi={chi})", tn, chi)
+            mk.same(f"after step {main}: the merged lines are one tensor per site", tn.num_tensors, Lx * Ly - width * (abs(s - steps[0]) + 1))
+
+
+def schedule(Lx, Ly, seq, max_separation=1, max_unfinished=1, start=None):
+    """documented schedule of contract_boundary (around=None), re-stated independently: cycle through
+    the directions; a direction is finished once its two opposing sides are within max_separation;
+    stop as soon as at most max_unfinished lattice directions are still further apart.
+    -> (rows left, columns left, list of (direction, line contracted into its inner neighbour))"""
+    lo = {"x": 0, "y": 0}
+    hi = {"x": Lx - 1, "y": Ly - 1}
+    for k, v in (start or {}).items():
+        (lo if k.endswith("min") else hi)[k[0]] = v
+    if seq is None:
+        seq = ("xmin", "xmax") if Lx >= Ly else ("ymin", "ymax")
+    alias = {"b": "xmin", "t": "xmax", "l": "ymin", "r": "ymax"}
+    if isinstance(seq, str) and seq not in _DIRS:
+        seq = tuple(alias[c] for c in seq)
+    elif isinstance(seq, str):
+        seq = (seq,)
+    sep = lambda a: hi[a] - lo[a]
+    todo = [d for d in seq if sep(d[0]) > max_separation]
+    steps = []
+    while todo:
+        d = todo.pop(0)
+        if sep(d[0]) <= max_separation:
+            continue
+        todo.append(d)
+        if d.endswith("min"):
+            steps.append((d, lo[d[0]]))
+            lo[d[0]] += 1
+        else:
+            steps.append((d, hi[d[0]]))
+            hi[d[0]] -= 1
+        if sum(sep(a) > max_separation for a in "xy") <= max_unfinished:
+            break
+    return sep("x") + 1, sep("y") + 1, steps
+
+
+_CAP_SEQS = [
+    ((4, 4), None, {}, True),
+    ((4, 4), ("xmin",), {"max_separation": 0}, True),
+    ((4, 4), ("ymax",), {"max_separation": 0}, True),
+    ((4, 4), ("xmax", "ymin"), {"max_unfinished": 0}, True),
+    ((4, 4), ("xmin", "ymin", "xmax", "ymax"), {"max_unfinished": 0}, True),
+    ((4, 4), "rtlb", {"max_unfinished": 0, "max_separation": 0}, False),
+    ((5, 3), None, {}, False),
+    ((3, 5), None, {}, False),
+    ((5, 4), ("xmax",), {"max_separation": 2}, False),
+    ((4, 5), ("ymin", "ymax"), {"ymin": 1}, False),
+]
+
+
+def _cap_driver_params():
+    out = []
+    for k, (shape, seq, extra, quick) in enumerate(_CAP_SEQS):
+        for opt in ("mps", "mps-nocanon", "mps-early", "full-bond", "direct", "zipup", "projector2d", "projector1d", "local-early",
+                    "local-late", "dm", "superorthogonal", "l2bp"):
+            for chi in (3, 2):
+                q = quick and chi == 3 and opt in ("mps", "full-bond", "projector2d") and k in (0, 3, 4)
+                if chi == 2 and opt not in ("mps", "full-bond", "projector2d"):
+                    continue
+                out.append({"shape": shape, "seq": seq, "extra": extra, "opt": opt, "chi": chi, "_tiers": _Q if q else _T})
+    return out
+
+
+@obligation(PROP, params=_cap_driver_params(), wall_s=500, timeout_s=600, max_paths=64)
+def boundary_cap_driver(mk, shape, seq, extra, opt, chi):
+    """contract_boundary(final_contract=False) with a truncating cap: the network handed over has
+    the documented number of lines left and no pair of its tensors shares more than chi"""
+    mk.encodes(c2.TensorNetwork2D.contract_boundary, c2.TensorNetwork2D._contract_interleaved_boundary_sequence,
+               c2.TensorNetwork2D.contract_boundary_from, c2.TensorNetwork2D._contract_boundary_core,
+               c2.TensorNetwork2D._contract_boundary_full_bond, c2.TensorNetwork2D._contract_boundary_projector,
+               c2.TensorNetwork2D._contract_boundary_core_via_1d, tc.TensorNetwork._compress_between_tids, tc.tensor_compress_bond)
+    mode = OPTS2D[opt]["mode"]
+    if mk.sym and mode in _NUMERIC_ONLY_MODES:
+        return _numeric_only(mk, f"mode {mode!r} iterates to a numerical tolerance")
+    heavy = mode in ("projector2d", "dm", "projector", "full-bond")
+    Lx, Ly = shape
+    if heavy and mk.sym:
+        # symbolic run of the modes that square merged regions: a 3 x 3 lattice and the first step of the
+        # cell's schedule only (the Gram matrices of the following steps are out of reach)
+        first = schedule(Lx, Ly, seq, extra.get("max_separation", 1), extra.get("max_unfinished", 1),
+                         {k: v for k, v in extra.items() if k in _DIRS})[2][0][0]
+        Lx, Ly, seq, extra = 3, 3, (first,), {}
+    tn = lattice2d(mk, Lx, Ly, "all", kind="real", numkind="cplx")
+    kw = {k: v for k, v in OPTS2D[opt].items()}
+    start = {k: v for k, v in extra.items() if k in _DIRS}
+    nx, ny, steps = schedule(Lx, Ly, seq, extra.get("max_separation", 1), extra.get("max_unfinished", 1), start)
+    with shapes_only():
+        res = tn.contract_boundary(max_bond=chi, cutoff=0.0, sequence=seq, final_contract=False, **kw, **extra)
+    mk.same("final_contract=False hands over a network", isinstance(res, qtn.TensorNetwork), True)
+    skipped = sum(v for k, v in start.items() if k.endswith("min")) * Ly if start else 0
+    if not start:
+        mk.same(f"lines left after the schedule {[s[0] for s in steps]}", res.num_tensors, nx * ny)
+    cap_goal(mk, f"contract_boundary(max_bond={chi}, cutoff=0.0, sequence={seq}, {opt}, final_contract=False, {extra})", res, chi)
+    mk.same("inplace=False leaves the input alone", (tn.num_tensors, _largest_pair(tn)), (Lx * Ly, 2))
+    # in place
+    t2 = tn.copy()
+    with shapes_only():
+        r2 = t2.contract_boundary_(max_bond=chi, cutoff=0.0, sequence=seq, final_contract=False, **kw, **extra)
+    mk.same("contract_boundary_ works in place", r2 is t2, True)
+    cap_goal(mk, "in place variant", t2, chi)
+
+
+# ---------------------------------------------------------------------- layered (bra / ket) networks
+
+def _lay_params():
+    out = []
+    for d in _DIRS:
+        shape = _shape_for(d)
+        pat = "col0" if d[0] == "x" else "row0"
+        for lt in ("KB", "BK", None):
+            for opt in ("mps", "mps-nocanon", "mps-rev", "full-bond", "direct"):
+                if opt == "full-bond" and lt is not None:
+                    continue        # the full-bond core contracts whole sites (no layer option)
+                q = opt == "mps" and lt in ("KB", None) and d in ("xmin", "ymax")
+                out.append({"shape": shape, "seq": (d,), "layers": lt, "opt": opt, "pattern": pat, "_tiers": _Q if q else _T})
+        out.append({"shape": shape, "seq": (d,), "layers": "KB", "opt": "mps", "pattern": "cols" if d[0] == "x" else "rows", "_tiers": _T})
+    return out
+
+
+_LAYERS = {"KB": ("KET", "BRA"), "BK": ("BRA", "KET"), None: None}
+
+
+@obligation(PROP, params=_lay_params(), **_CERT)
+@certified
+def layered_exact(mk, shape, seq, layers, opt, pattern):
+    """<psi|psi> network of a PEPS (two layers): contract_boundary with layer_tags in both orders /
+    without, every side: cap >= the exact (doubled) boundary bond and cutoff 0 => exact <psi|psi>"""
+    mk.encodes(*_ENC_BOUNDARY, tc.TensorNetwork.make_norm)
+    Lx, Ly = shape
+    norm, p = norm2d(mk, Lx, Ly, pattern, kind="real", numkind="cplx")
+    want = exact(norm)
+    kw = dict(OPTS2D[opt])
+    cap = 16
+    res = norm.contract_boundary(max_bond=cap, cutoff=0.0, sequence=seq, layer_tags=_LAYERS[layers], **kw)
+    mk.eq(f"norm.contract_boundary(max_bond={cap}, cutoff=0.0, sequence={seq}, layer_tags={_LAYERS[layers]}, {opt}) == exact <psi|psi>",
+          value(res), want)
+    mk.eq("inplace=False leaves the network alone", exact(norm), want)
+
+
+def _lay_cap_params():
+    out = []
+    for d in _DIRS:
+        for lt in ("KB", "BK", None):
+            for opt in ("mps", "mps-nocanon", "mps-early", "direct", "zipup", "full-bond", "projector2d"):
+                if opt == "full-bond" and lt is not None:
+                    continue
+                for chi in (5, 2):
+                    q = opt == "mps" and chi == 5 and lt == "KB"
+                    if chi == 2 and opt != "mps":
+                        continue
+                    out.append({"side": d, "layers": lt, "opt": opt, "chi": chi, "_tiers": _Q if q else _T})
+    return out
+
+
+@obligation(PROP, params=_lay_cap_params(), wall_s=500, timeout_s=600, max_paths=64)
+def layered_cap(mk, side, layers, opt, chi):
+    """two-layer network, truncating cap, step by step from each side: after every step (all layers
+    absorbed) no pair of tensors shares more than chi"""
+    mk.encodes(c2.TensorNetwork2D.contract_boundary_from, c2.TensorNetwork2D._contract_boundary_core,
+               c2.TensorNetwork2D._contract_boundary_core_via_1d, c2.TensorNetwork2D._contract_boundary_projector)
+    mode = OPTS2D[opt]["mode"]
+    heavy = mode in ("projector2d", "full-bond")
+    depth, width = (3, 3) if (mk.sym and heavy) else (4, 3)
+    Lx, Ly = (depth, width) if side[0] == "x" else (width, depth)
+    norm, p = norm2d(mk, Lx, Ly, "all", kind="real", numkind="cplx")
+    kw = {k: v for k, v in OPTS2D[opt].items() if k != "mode"}
+    if mode in ("mps", "direct", "zipup"):
+        kw["layer_tags"] = _LAYERS[layers]
+    elif layers is not None:
+        raise Skip("mode has no layer option")
+    steps = range(depth - 1) if side.endswith("min") else range(depth - 1, 0, -1)
+    if heavy and mk.sym:
+        steps = steps[:1]
+    with shapes_only():
+        for s in steps:
+            main = (s, s + 1) if side.endswith("min") else (s - 1, s)
+            rng = dict(xrange=main, yrange=(0, Ly - 1)) if side[0] == "x" else dict(yrange=main, xrange=(0, Lx - 1))
+            norm.contract_boundary_from_(from_which=side, max_bond=chi, cutoff=0.0, mode=mode, **rng, **kw)
+            cap_goal(mk, f"two layers, after step {main} from {side} ({opt}, layer_tags={_LAYERS[layers]}, chi={chi})", norm, max(chi, 2))
+            k = abs(s - steps[0]) + 1
+            mk.same(f"after step {main}: boundary sites are single tensors", norm.num_tensors, 2 * Lx * Ly - width * (2 * k + 1))
+
+
+# ---------------------------------------------------------------------- row / column environments
+
+def _lines(tn, side, idxs):
+    """the tensors of the lattice lines `idxs` (rows for x sides, columns for y sides) as a network"""
+    tags = [tn.x_tag(i) if side[0] == "x" else tn.y_tag(i) for i in idxs]
+    if not tags:
+        return qtn.TensorNetwork([])
+    return tn.select_any(tags)
+
+
+def env_goals(mk, tn, envs, side, want, label, lo=0, hi=None, rest=None):
+    """every stored environment (side, i) == the lines on that side of line i (within lo..hi):
+    combined with the lines it excludes it contracts to the value of the whole"""
+    n = (tn.Lx if side[0] == "x" else tn.Ly)
+    hi = n - 1 if hi is None else hi
+    for i in range(lo, hi + 1):
+        mk.same(f"{label}: environment ({side}, {i}) is stored", (side, i) in envs, True)
+        if (side, i) not in envs:
+            continue
+        env = envs[side, i]
+        excluded = range(i, hi + 1) if side.endswith("min") else range(lo, i + 1)
+        parts = [env, _lines(tn, side, list(excluded))]
+        if rest is not None:
+            parts.append(rest)
+        full = qtn.TensorNetwork(parts)
+        mk.eq(f"{label}: ({side}, {i}) environment | excluded lines == whole network", exact(full), want)
+
+
+def _env_params():
+    out = []
+    for shape in ((3, 2), (2, 3), (3, 3), (4, 3)):
+        for side in _DIRS:
+            depth = shape[0] if side[0] == "x" else shape[1]
+            if depth < 3:
+                continue
+            for opt in ("mps", "mps-nocanon", "full-bond", "dense", "direct"):
+                for pattern in ("all", "along"):
+                    if shape in ((3, 3), (4, 3)) and pattern == "all":
+                        continue
+                    if shape == (4, 3) and opt not in ("mps", "dense"):
+                        continue
+                    q = shape in ((3, 2), (2, 3)) and pattern == "all" and opt in ("mps", "full-bond", "dense")
+                    out.append({"shape": shape, "side": side, "opt": opt, "pattern": pattern, "_tiers": _Q if q else _T})
+    return out
+
+
+@obligation(PROP, params=_env_params(), **_CERT)
+@certified
+def environments_one_side(mk, shape, side, opt, pattern):
+    """compute_environments(from_which) / compute_{xmin,xmax,ymin,ymax}_environments: every stored
+    environment, combined with the lines it excludes, contracts to the value of the whole network"""
+    mk.encodes(c2.TensorNetwork2D.compute_environments, c2.TensorNetwork2D.contract_boundary_from, *_ENC_BOUNDARY)
+    Lx, Ly = shape
+    pat = _along(side) if pattern == "along" else pattern
+    tn = lattice2d(mk, Lx, Ly, pat, kind="real", numkind="cplx")
+    want = exact(tn)
+    depth = Lx if side[0] == "x" else Ly
+    cap = 2 ** (depth - 1)
+    kw = dict(dense=True) if opt == "dense" else dict(OPTS2D[opt])
+    envs = getattr(tn, f"compute_{side}_environments")(max_bond=cap, cutoff=0.0, **kw)
+    mk.same("keys", sorted(envs), sorted((side, i) for i in range(depth)))
+    env_goals(mk, tn, envs, side, want, f"compute_{side}_environments(max_bond={cap}, cutoff=0.0, {opt})")
+    mk.eq("the network itself is left alone", exact(tn), want)
+    if opt == "mps":
+        # the same through the generic entry point, into a caller-supplied dict
+        store = {"other": 1}
+        e2 = tn.compute_environments(side, max_bond=cap, cutoff=0.0, envs=store)
+        mk.same("compute_environments(envs=store) fills and returns the caller's dict", e2 is store and "other" in store, True)
+        first = 0 if side.endswith("min") else depth - 1
+        mk.same("the outermost environment is empty", store[side, first].num_tensors, 0)
+        last = depth - 1 if side.endswith("min") else 0
+        mk.eq("generic entry point: innermost environment | last line == whole",
+              exact(qtn.TensorNetwork([store[side, last], _lines(tn, side, [last])])), want)
+
+
+def _env_both_params():
+    out = []
+    for shape in ((3, 2), (2, 3), (3, 3), (4, 3), (3, 4)):
+        for plane in "xy":
+            depth = shape[0] if plane == "x" else shape[1]
+            if depth < 3:
+                continue
+            for opt in ("mps", "full-bond", "dense", "mps-nocanon"):
+                pattern = "all" if shape in ((3, 2), (2, 3)) else "along"
+                q = shape in ((3, 2), (2, 3)) and opt in ("mps", "dense")
+                out.append({"shape": shape, "plane": plane, "opt": opt, "pattern": pattern, "_tiers": _Q if q else _T})
+    return out
+
+
+@obligation(PROP, params=_env_both_params(), **_CERT)
+@certified
+def environments_sandwich(mk, shape, plane, opt, pattern):
+    """compute_x_environments / compute_y_environments: for every line i the documented sandwich
+    envs[min, i] | line i | envs[max, i] contracts to the value of the whole network"""
+    mk.encodes(c2.TensorNetwork2D.compute_x_environments, c2.TensorNetwork2D.compute_y_environments,
+               c2.TensorNetwork2D.compute_environments, *_ENC_BOUNDARY)
+    Lx, Ly = shape
+    pat = _along(plane + "min") if pattern == "along" else pattern
+    tn = lattice2d(mk, Lx, Ly, pat, kind="real", numkind="cplx")
+    want = exact(tn)
+    depth = Lx if plane == "x" else Ly
+    cap = 2 ** (depth - 1)
+    kw = dict(dense=True) if opt == "dense" else dict(OPTS2D[opt])
+    envs = getattr(tn, f"compute_{plane}_environments")(max_bond=cap, cutoff=0.0, **kw)
+    mk.same("keys", sorted(envs), sorted((plane + m, i) for m in ("min", "max") for i in range(depth)))
+    for i in range(depth):
+        full = qtn.TensorNetwork([envs[plane + "min", i], _lines(tn, plane + "min", [i]), envs[plane + "max", i]])
+        mk.eq(f"compute_{plane}_environments(max_bond={cap}, cutoff=0.0, {opt}): envs[{plane}min, {i}] | line {i} | envs[{plane}max, {i}] == whole",
+              exact(full), want)
+
+
+# ---------------------------------------------------------------------- plaquette environments
+
+def _plaq_sites(i0, j0, bx, by):
+    return [(i0 + a, j0 + b) for a in range(bx) for b in range(by)]
+
+
+def plaquette_goals(mk, tn, penvs, bx, by, want, label):
+    Lx, Ly = tn.Lx, tn.Ly
+    keys = sorted(((i0, j0), (bx, by)) for i0 in range(Lx - bx + 1) for j0 in range(Ly - by + 1))
+    mk.same(f"{label}: one environment per plaquette position", sorted(penvs), keys)
+    for key in keys:
+        if key not in penvs:
+            continue
+        (i0, j0), _ = key
+        inner = tn.select_any([tn.site_tag(*s) for s in _plaq_sites(i0, j0, bx, by)])
+        full = qtn.TensorNetwork([penvs[key], inner])
+        mk.eq(f"{label}: environment {key} | its plaquette == whole network", exact(full), want)
+
+
+def _plaq_params():
+    out = []
+    for shape in ((3, 2), (2, 3), (3, 3)):
+        for bx, by in ((1, 1), (1, 2), (2, 1), (2, 2)):
+            for first in (None, "x", "y"):
+                for dense in (None, True, False):
+                    for opt in ("mps", "full-bond"):
+                        if opt == "full-bond" and (dense is not None or first is None):
+                            continue
+                        pattern = "all" if shape != (3, 3) else "rows"
+                        q = shape != (3, 3) and opt == "mps" and ((first is None and dense is None) or (first == "x" and dense is False and (bx, by) == (1, 1))
+                                                                  or (first == "y" and dense is True and (bx, by) == (2, 2)))
+                        out.append({"shape": shape, "bsz": (bx, by), "first": first, "dense": dense, "opt": opt, "pattern": pattern,
+                                    "_tiers": _Q if q else _T})
+    for bx, by in ((1, 1), (2, 2), (1, 2)):
+        for first in ("x", "y"):
+            out.append({"shape": (3, 3), "bsz": (bx, by), "first": first, "dense": None, "opt": "mps", "pattern": "cols", "_tiers": _T})
+    return out
+
+
+@obligation(PROP, params=_plaq_params(), **_CERT)
+@certified
+def plaquette_environments(mk, shape, bsz, first, dense, opt, pattern):
+    """compute_plaquette_environments(x_bsz, y_bsz, first_contract, second_dense): every stored
+    environment, combined with the plaquette it surrounds, contracts to the value of the whole"""
+    mk.encodes(c2.TensorNetwork2D.compute_plaquette_environments, c2.TensorNetwork2D._compute_plaquette_environments_x_first,
+               c2.TensorNetwork2D._compute_plaquette_environments_y_first, c2.TensorNetwork2D.compute_x_environments,
+               c2.TensorNetwork2D.compute_y_environments, c2.TensorNetwork2D.compute_environments, *_ENC_BOUNDARY)
+    Lx, Ly = shape
+    bx, by = bsz
+    tn = lattice2d(mk, Lx, Ly, pattern, kind="real", numkind="cplx")
+    want = exact(tn)
+    kw = {k: v for k, v in OPTS2D[opt].items()}
+    penvs = tn.compute_plaquette_environments(x_bsz=bx, y_bsz=by, max_bond=16, cutoff=0.0, first_contract=first, second_dense=dense, **kw)
+    plaquette_goals(mk, tn, penvs, bx, by, want,
+                    f"compute_plaquette_environments({bx}, {by}, max_bond=16, cutoff=0.0, first_contract={first}, second_dense={dense}, {opt})")
+    mk.eq("the network itself is left alone", exact(tn), want)
+
+
+# ---------------------------------------------------------------------- arbitrary geometry
+
+# name -> (number of tensors, edges, outer legs {tensor: n})
+GRAPHS = {
+    "ring4": (4, [(0, 1), (1, 2), (2, 3), (0, 3)], {}),
+    "chord4": (4, [(0, 1), (1, 3), (2, 3), (0, 2), (0, 3)], {}),            # 2 x 2 grid plus a chord
+    "full4": (4, [(0, 1), (0, 2), (0, 3), (1, 2), (1, 3), (2, 3)], {}),
+    "tree5": (5, [(0, 1), (0, 2), (2, 3), (2, 4)], {}),
+    "ring4open": (4, [(0, 1), (1, 2), (2, 3), (0, 3)], {0: 1, 2: 1}),       # two outer labels
+    "ladder6": (6, [(0, 1), (1, 2), (3, 4), (4, 5), (0, 3), (1, 4), (2, 5)], {}),   # 2 x 3 grid
+    "prism6": (6, [(0, 1), (1, 2), (0, 2), (3, 4), (4, 5), (3, 5), (0, 3), (1, 4), (2, 5)], {}),
+}
+
+
+def graph_tn(mk, geom, kind="real", numkind=None, D=2, dims=None):
+    n, edges, outer = GRAPHS[geom]
+    k = kind if mk.sym else (numkind or kind)
+    inds = {i: [] for i in range(n)}
+    size = {}
+    for e in edges:
+        ix = "b" + "".join(map(str, e))
+        size[ix] = (dims or {}).get(e, D)
+        for a in e:
+            inds[a].append(ix)
+    for a, cnt in outer.items():
+        for c in range(cnt):
+            ix = f"o{a}{c}"
+            size[ix] = D
+            inds[a].append(ix)
+    ts = [qtn.Tensor(mk.array(f"T{i}", tuple(size[ix] for ix in inds[i]), k), tuple(inds[i]), tags=[f"I{i}"]) for i in range(n)]
+    tn = qtn.TensorNetwork(ts)
+    out = tuple(ix for ix in size if ix.startswith("o"))
+    return tn, out
+
+
+def all_paths(n):
+    """every linear (opt_einsum style) contraction path of n tensors"""
+    if n == 1:
+        yield ()
+        return
+    for i, j in itertools.combinations(range(n), 2):
+        for rest in all_paths(n - 1):
+            yield ((i, j),) + rest
+
+
+class Watch:
+    """callbacks of a compressed contraction: records every compression (sizes before / bond after)"""
+
+    def __init__(self):
+        self.pre = []
+        self.post = []
+
+    @staticmethod
+    def _sizes(tn, tids):
+        t1, t2 = tn.tensor_map[tids[0]], tn.tensor_map[tids[1]]
+        bond = 1
+        for ix in t1.inds:
+            if ix in t2.inds:
+                bond *= t1.ind_size(ix)
+        return t1.size // bond, bond, t2.size // bond
+
+    def pre_compress(self, tn, tids):
+        self.pre.append(self._sizes(tn, tids))
+
+    def post_compress(self, tn, tids):
+        self.post.append(self._sizes(tn, tids))
+
+    def rank_safe(self, chi):
+        """every compression met a bond whose rank bound min(left, bond, right) is within chi: nothing can be lost"""
+        return all(min(l, b, r) <= chi for l, b, r in self.pre) if chi is not None else True
+
+    def kw(self):
+        return dict(callback_pre_compress=self.pre_compress, callback_post_compress=self.post_compress)
+
+
+CC_OPTS = {
+    "default": {},
+    "late": dict(compress_late=True),
+    "basic": dict(compress_mode="basic"),
+    "basic-late": dict(compress_mode="basic", compress_late=True),
+    "tg0": dict(tree_gauge_distance=0),
+    "tg2": dict(tree_gauge_distance=2),
+    "tg2-all": dict(tree_gauge_distance=2, gauge_boundary_only=False),
+    "canon2": dict(compress_mode="basic", canonize_distance=2, canonize_after_distance=0),
+    "span-all": dict(compress_span=False),
+    "span2": dict(compress_span=2),
+    "nomat": dict(compress_matrices=False),
+    "minsize": dict(compress_min_size=9),
+    "gauges": dict(gauges=True),
+    "gauges-all": dict(gauges=True, gauge_boundary_only=False),
+    "eq": dict(equalize_norms=True, compress_mode="basic"),
+    "strip": dict(strip_exponent=True, compress_mode="basic"),
+    "absorb-left": dict(compress_mode="basic", compress_opts=dict(absorb="left")),
+    "full-bond": dict(compress_mode="full-bond"),
+}
+
+
+def _cc_params():
+    out = []
+    for geom in ("ring4", "chord4", "full4", "ring4open", "tree5"):
+        for chi in (2, 4, None):
+            for opt in CC_OPTS:
+                if chi != 2 and opt not in ("default", "late", "basic", "gauges"):
+                    continue        # with chi >= every product bond nothing is ever compressed: the option is dead
+                q = (geom in ("ring4", "chord4") and opt in ("default", "late", "basic", "tg0") and chi == 2) or \
+                    (geom == "ring4open" and opt == "default" and chi in (2, 4))
+                out.append({"geom": geom, "chi": chi, "opt": opt, "_tiers": _Q if q else _T})
+    return out
+
+
+@obligation(PROP, params=_cc_params(), **_CERT)
+@certified
+def contract_compressed_all_paths(mk, geom, chi, opt):
+    """TensorNetwork.contract_compressed along EVERY contraction path of a small graph (explicit
+    `optimize` paths): whenever every compression met a bond whose rank bound is within the cap,
+    the value is exact; every bond that was compressed is within the cap right afterwards"""
+    mk.encodes(tc.TensorNetwork.contract_compressed, tc.TensorNetwork._contract_compressed_tid_sequence,
+               tc.TensorNetwork._compress_between_tids, tc.TensorNetwork._compress_between_virtual_tree_tids,
+               tc.TensorNetwork._compute_tree_gauges, tc.TensorNetwork._canonize_around_tids, tc.TensorNetwork._gauge_local_tids,
+               tc.TensorNetwork._contract_between_tids, tc.tensor_compress_bond, tc.tensor_canonize_bond, tc.tensor_fuse_squeeze,
+               tc.maybe_unwrap, decomp.compute_oblique_projectors)
+    tn, out = graph_tn(mk, geom, kind="real", numkind="cplx")
+    want = exact(tn, out)
+    n = tn.num_tensors
+    paths = list(all_paths(n))
+    if n > 4:
+        paths = paths[:: max(1, len(paths) // 12)][:12]
+    kw = dict(CC_OPTS[opt])
+    nexact = 0
+    for p in paths:
+        w = Watch()
+        res = tn.contract_compressed(optimize=p, max_bond=chi, cutoff=0.0, output_inds=out or None, **w.kw(), **kw)
+        for l, b, r in w.post:
+            mk.same(f"path {p}: a bond just compressed is within the cap {chi}", max(b, chi), chi)
+        if not w.rank_safe(chi):
+            continue                # a genuinely truncating compression happened on this path: exactness is not promised
+        nexact += 1
+        if isinstance(res, tuple):
+            val = (res[0].data if isinstance(res[0], qtn.Tensor) else res[0]) * 10 ** res[1]
+        else:
+            val = res.transpose(*out).data if isinstance(res, qtn.Tensor) and out else value(res)
+        mk.eq(f"contract_compressed(optimize={p}, max_bond={chi}, cutoff=0.0, {opt}) == exact value "
+              f"({len(w.pre)} compressions, all rank-safe)", val, want)
+    mk.same("at least one path is in the exact regime", nexact > 0, True)
+    mk.eq("the network is left alone", exact(tn, out), want)
